@@ -592,6 +592,9 @@ func (v Value) opLte(b Value) Value {
 func (v Value) opNeq(b Value) Value { return Bool(!v.Equals(b)) }
 
 func (v Value) Equals(b Value) bool {
+	if v.t == TypeNil && b.t != TypeNil {
+		return b.Equals(v) // nil == x is x == nil
+	}
 	switch {
 	case v.t == TypeBool:
 		return b.t == TypeBool && v.num == b.num
